@@ -106,7 +106,8 @@ def go_test_overlay(work, pkg, test_files, run, env=None, race=False, timeout=18
         overlay["Replace"][os.path.join(REPO, pkg, os.path.basename(f))] = src
     n = work.next()
     ov = work.path("overlay%d.json" % n)
-    json.dump(overlay, open(ov, "w"))
+    with open(ov, "w") as f:
+        json.dump(overlay, f)
     cmd = ["go", "test", "-tags", tags, "-vet=off", "-count=1", "-overlay", ov, "-run", run,
            "-timeout", "%ds" % timeout]
     if race:
